@@ -23,8 +23,7 @@
   (`settle`): every `await` of the Rust code that needs the environment is a separate state.
 
   Not modelled: a block that does not fit the payload limit (`pending_block`, model and
-  theorems of C12, `Astria/Relayer/Loop.lean`), a full submitter channel (128 blocks),
-  graceful shutdown, failing sequencer RPCs (they are retried without any state change),
+  theorems of C12, `Astria/Relayer/Loop.lean`), graceful shutdown, failing sequencer RPCs (they are retried without any state change),
   durations (every timeout is an action the environment may take at any moment).
 -/
 namespace Astria.RelayerCrash
@@ -119,6 +118,9 @@ structure Proc where
   fetched : Option Nat := none
   inflight : Option Nat := none
   chan : List Nat := []
+  /-- `forward_once_free`: the block that found the submitter's channel full; the block stream
+      is paused while it waits -/
+  fwd : Option Nat := none
   /-- ghost: height of the last block the submitter took out of the channel (start − 1 at first) -/
   recvd : Nat := 0
   -- submitter
@@ -167,6 +169,7 @@ inductive Action where
   | bcast (o : BcastOutcome)
   | gettx (m : GetTxMode)
   | giveup
+  | expire
   | wait
   | poll
   | bump (n : Nat)
@@ -186,14 +189,28 @@ def World.confirmedAt (w : World) (t : Nat) : Option Nat :=
 
 /-! ### the process between two environment actions -/
 
-/-- `BlockStream::poll_next`: one fetch in flight, heights in order, up to the observed height -/
+/-- capacity of the channel between `Relayer::run` and the submitter -/
+def chanCap : Nat := 128
+
+/-- `BlockStream::poll_next`: one fetch in flight, heights in order, up to the observed height;
+    nothing is fetched while the stream is paused -/
 def readerStep (p : Proc) : Proc :=
-  match p.inflight, p.observed with
-  | none, some o =>
+  match p.inflight, p.fwd, p.observed with
+  | none, none, some o =>
     if p.rnext ≤ o then
       { p with inflight := some p.rnext, requested := some p.rnext, rnext := p.rnext + 1 }
     else p
-  | _, _ => p
+  | _, _, _ => p
+
+/-- `forward_block_for_submission`: `try_send`, or park the block and pause the stream -/
+def forwardBlock (p : Proc) (h : Nat) : Proc :=
+  if p.chan.length < chanCap then { p with chan := p.chan ++ [h] } else { p with fwd := some h }
+
+/-- the parked `send` completes as soon as the channel has room; the stream resumes -/
+def forwardStep (p : Proc) : Proc :=
+  match p.fwd with
+  | some b => if p.chan.length < chanCap then { p with chan := p.chan ++ [b], fwd := none } else p
+  | none => p
 
 inductive LoopRes where
   | idle
@@ -228,7 +245,11 @@ def settleLoop : Nat → Proc → Nat → Option Proc × Nat
 
 def settleProc (p : Proc) (np : Nat) : Option Proc × Nat :=
   match settleLoop (2 * p.chan.length + 4) p np with
-  | (some p', np') => (some (if p'.boot = .up then readerStep p' else p'), np')
+  | (some p1, np1) =>
+    -- a parked block gets in once the submitter has made room, and is received in turn
+    match settleLoop 6 (forwardStep p1) np1 with
+    | (some p2, np2) => (some (if p2.boot = .up then readerStep p2 else p2), np2)
+    | (none, np2) => (none, np2)
   | (none, np') => (none, np')
 
 def World.settle (w : World) : World :=
@@ -306,7 +327,7 @@ def stepFetch (w : World) : World :=
     match p.inflight with
     | none => w
     | some h =>
-      ({ w with proc := some { p with inflight := none, fetched := some h, chan := p.chan ++ [h] } }).settle
+      ({ w with proc := some (forwardBlock { p with inflight := none, fetched := some h } h) }).settle
 
 def stepBcast (w : World) (o : BcastOutcome) : World :=
   match w.proc with
@@ -366,6 +387,21 @@ def stepGiveup (w : World) : World :=
       | _ => w
     | _ => w
 
+/-- a *bounded* confirmation expires between two polls (transient `GetTx` failures stretch the
+    poll interval up to 12 s): same continuation as `giveup`, whatever the chain says meanwhile -/
+def stepExpire (w : World) : World :=
+  match w.proc with
+  | none => w
+  | some p =>
+    match p.su with
+    | .lsleep _ l _ => ({ w with proc := some { observe w p with su := .lwTmp l } }).settle
+    | .loop =>
+      match p.ongoing with
+      | .fsleep hs _ =>
+        ({ w with np := w.np + 1, proc := some { observe w p with ongoing := .wPrepTmp hs } }).settle
+      | _ => w
+    | _ => w
+
 /-- is a Celestia RPC of the process held by the environment? (time must not pass then:
     the 5 s gRPC timeout would fire) -/
 def Proc.celestiaHeld (p : Proc) : Bool :=
@@ -401,6 +437,7 @@ def step (w : World) : Action → World
   | .bcast o => stepBcast w o
   | .gettx m => stepGetTx w m
   | .giveup => stepGiveup w
+  | .expire => stepExpire w
   | .wait => stepWait w
   | .poll => match w.proc with
     | none => w
